@@ -79,23 +79,9 @@ def case_constraint(**p):
   case.encoded(LL.LatticeConstraints.__call__, ll.finalize_constraints, ll._approximately_project_monotonicity,
                ll._approximately_project_edgeworth, ll._approximately_project_trapezoid,
                ll._trapezoid_violation_update, ll._approximately_project_bounds, ll.project_by_dykstra)
+  con = _constraint_of(p)
   if p.get('via') == 'layer':
-    layer = LL.Lattice(lattice_sizes=sizes, units=units, monotonicities=p['mono'],
-                       unimodalities=p.get('uni'), edgeworth_trusts=[tuple(t) for t in p['edge']] or None,
-                       trapezoid_trusts=[tuple(t) for t in p['trap']] or None,
-                       output_min=p['omin'], output_max=p['omax'], monotonic_at_every_step=p.get('strict', True),
-                       num_projection_iterations=p['iters'])
-    layer.build([None, units, len(sizes)] if units > 1 else [None, len(sizes)])
-    con = layer._final_constraints if p.get('final') else layer.kernel.constraint
     case.encoded(LL.Lattice.build)
-    if p.get('final'):
-      # finalize_constraints() runs 20 Dykstra iterations first; since the strict stage accepts an arbitrary kernel
-      # the claim for it is the iters=0 claim; here we shorten the loop to keep the formula small.
-      con.num_projection_iterations = p['iters']
-  else:
-    con = _mk_constraint(sizes, p['mono'], p['edge'], p['trap'], p['omin'], p['omax'], p['iters'],
-                         uni=p.get('uni'), mdom=p.get('mdom'), rdom=p.get('rdom'), jmono=p.get('jmono'),
-                         juni=p.get('juni'))
   tr = Traced(lambda w: con(w), [tf.TensorSpec([n, units], tf.float32)], name='LatticeConstraints')
   rng = np.random.default_rng(p.get('seed', 0))
   done, mism = tr.validate(rng, n=2)
@@ -130,14 +116,35 @@ def case_constraint(**p):
   return case
 
 
+def _constraint_of(p):
+  """the constraint object of the configuration: built directly, or taken from a really built Lattice layer
+  (its kernel constraint, or the strict copy that finalize_constraints() applies)"""
+  from tensorflow_lattice.python import lattice_layer as LL
+  sizes, units = list(p['sizes']), p['units']
+  if p.get('via') == 'layer':
+    layer = LL.Lattice(lattice_sizes=sizes, units=units, monotonicities=p['mono'],
+                       unimodalities=p.get('uni'), edgeworth_trusts=[tuple(t) for t in p['edge']] or None,
+                       trapezoid_trusts=[tuple(t) for t in p['trap']] or None,
+                       output_min=p['omin'], output_max=p['omax'], monotonic_at_every_step=p.get('strict', True),
+                       num_projection_iterations=p['iters'])
+    layer.build([None, units, len(sizes)] if units > 1 else [None, len(sizes)])
+    con = layer._final_constraints if p.get('final') else layer.kernel.constraint
+    if p.get('final'):
+      # finalize_constraints() runs 20 Dykstra iterations first; since the strict stage accepts an arbitrary kernel
+      # the claim for it is the iters=0 claim; here we shorten the loop to keep the formula small.
+      con.num_projection_iterations = p['iters']
+    return con
+  return _mk_constraint(sizes, p['mono'], p['edge'], p['trap'], p['omin'], p['omax'], p['iters'],
+                        uni=p.get('uni'), mdom=p.get('mdom'), rdom=p.get('rdom'), jmono=p.get('jmono'),
+                        juni=p.get('juni'))
+
+
 def replay(r):
-  """Re-run a witness on the real code, eagerly, through the public constraint object."""
+  """Re-run a witness on the real code, eagerly, through the same constraint object the case encoded."""
   import tensorflow as tf
   p = r['replay']['params']
   sizes, units = list(p['sizes']), p['units']
-  con = _mk_constraint(sizes, p['mono'], p['edge'], p['trap'], p['omin'], p['omax'], p['iters'],
-                       uni=p.get('uni'), mdom=p.get('mdom'), rdom=p.get('rdom'), jmono=p.get('jmono'),
-                       juni=p.get('juni'))
+  con = _constraint_of(p)
   w = core.witness_np(r['witness']['w'])
   res = {}
   reproduced = False
